@@ -447,6 +447,36 @@ def extract_callsig(incdir):
             "casts_slot": casts_slot, "casts_signal": casts_sig, "reinterpret_casts": uses_reinterpret, "cstyle_casts": cstyle}
 
 
+def extract_pp(incdir):
+    """preprocessor conditionals of the library sources (header guards excluded) and the names that
+    exist only when deprecated API is enabled"""
+    conds, dep_only = [], []
+    root = os.path.join(REPO, "sigc++")
+    for dirpath, _d, files in os.walk(root):
+        for fn in sorted(files):
+            if not fn.endswith((".h", ".cc")):
+                continue
+            path = os.path.join(dirpath, fn)
+            lines = open(path, errors="replace").read().split("\n")
+            for i, line in enumerate(lines):
+                m = re.match(r"\s*#\s*(ifndef|ifdef|if|elif)\s+(.*)$", line)
+                if not m:
+                    continue
+                expr = m.group(2).split("//")[0].split("/*")[0].strip()
+                if m.group(1) == "ifndef":
+                    nxt = next((l for l in lines[i + 1:i + 4] if l.strip()), "")
+                    if re.match(r"\s*#\s*define\s+" + re.escape(expr) + r"\b", nxt):
+                        continue        # header guard
+                for macro in re.findall(r"[A-Za-z_]\w*", expr):
+                    if macro != "defined":
+                        conds.append(("%s:%d" % (os.path.relpath(path, REPO), i + 1), macro))
+            txt = "\n".join(lines)
+            for m in re.finditer(r"#\s*ifndef\s+SIGCXX_DISABLE_DEPRECATED(.*?)#\s*endif", txt, re.S):
+                for nm in re.findall(r"^([A-Za-z_]\w*)\s*\(", m.group(1), re.M):
+                    dep_only.append(nm)
+    return sorted(conds), sorted(set(dep_only))
+
+
 ADAPTORS = ["bind_functor", "hide_functor", "retype_functor", "retype_return_functor", "bind_return_functor",
             "compose1_functor", "compose2_functor", "exception_catch_functor", "track_obj_functor", "adaptor_functor",
             "bound_argument", "limit_reference", "bound_mem_functor", "mem_functor", "pointer_functor"]
@@ -462,6 +492,7 @@ def generate(incdir, outpath):
     take = extract_take(incdir)
     glob = extract_globals(incdir)
     cs = extract_callsig(incdir)
+    pp_conds, dep_only = extract_pp(incdir)
     L = []
     L.append("(* GENERATED by translate/cxx2coq.py from %s -- do not edit. *)" % REPO)
     L.append("From Coq Require Import List String ZArith.")
@@ -539,6 +570,12 @@ def generate(incdir, outpath):
     L.append(";\n".join("  (%s, %s, %s, %s)" % (coq_str(g["name"]), coq_str("%s:%s" % (g["file"], g["line"])), "true" if g["mutable"] else "false",
                                               "true" if g["thread_local"] else "false") for g in glob))
     L.append("].")
+    L.append("")
+    L.append("(* where, macro: every macro tested by a preprocessor conditional in sigc++/ (header guards excluded) *)")
+    L.append("Definition gen_pp_conditionals : list (string * string) := [")
+    L.append(";\n".join("  (%s, %s)" % (coq_str(w), coq_str(m)) for w, m in pp_conds))
+    L.append("].")
+    L.append("Definition gen_deprecated_only : list string := [%s]." % "; ".join(coq_str(n) for n in dep_only))
     text = "\n".join(L) + "\n"
     os.makedirs(os.path.dirname(outpath), exist_ok=True)
     old = open(outpath).read() if os.path.exists(outpath) else None
@@ -547,7 +584,7 @@ def generate(incdir, outpath):
             fh.write(text)
     return {"visitors": vis, "classes": {k: {"fields": v["fields"], "modes": [hop_mode(o) for o in v["ops"]],
                                              "slices": [s for o in v["ops"] for s in o["slices"]]} for k, v in cls.items()},
-            "take": take, "globals": glob, "callsig": cs, "digest": hashlib.sha256(text.encode()).hexdigest()[:16], "changed": old != text}
+            "take": take, "globals": glob, "callsig": cs, "pp_conditionals": pp_conds, "deprecated_only": dep_only, "digest": hashlib.sha256(text.encode()).hexdigest()[:16], "changed": old != text}
 
 
 if __name__ == "__main__":
